@@ -40,12 +40,12 @@ Pos(seq, v) == IF \E i \in DOMAIN seq : seq[i] = v THEN CHOOSE i \in DOMAIN seq 
 Count(seq, v) == Cardinality({i \in DOMAIN seq : seq[i] = v})
 Has(e, f) == f \in DOMAIN e
 
-G0 == [head |-> 0, lo |-> 0, dig |-> EmptyFn, pend |-> EmptyFn, reg |-> EmptyFn, dpos |-> EmptyFn, ppos |-> EmptyFn, dset |-> EmptyFn,
+G0 == [head |-> 0, phead |-> 0, lo |-> 0, dig |-> EmptyFn, pend |-> EmptyFn, reg |-> EmptyFn, dpos |-> EmptyFn, ppos |-> EmptyFn, dset |-> EmptyFn,
        q |-> 0, backend |-> "bolt", gated |-> FALSE, buf |-> 0, wedged |-> FALSE]
 
 NewStream(f, a, h) ==
   [from |-> f, a |-> a, pc |-> "open", sent |-> <<>>, nscan |-> 0, skipped |-> {}, dispAfter |-> {},
-   health |-> "ok", pred |-> 0, orphan |-> FALSE, repl |-> FALSE, lost |-> {}, disp |-> 0, taken |-> 0, headOpen |-> h,
+   health |-> "ok", pred |-> 0, orphan |-> FALSE, repl |-> FALSE, seekmiss |-> FALSE, lost |-> {}, disp |-> 0, taken |-> 0, headOpen |-> h,
    evict |-> FALSE, why |-> "none"]
 
 Alarm(mon, e, shape, detail) ==
@@ -54,6 +54,10 @@ Alarm(mon, e, shape, detail) ==
 TraceInit == l = 1 /\ alarms = {} /\ scen = "none" /\ g = G0 /\ ss = EmptyFn
 
 Known(e) == e.s \in DOMAIN ss
+
+\* lowest round the store still holds, counting Puts that were called but whose append.stored stamp
+\* is not recorded yet (the memdb ring evicts inside Put, slightly before the stamp)
+LoNow == IF g.backend = "mem" /\ g.phead + 1 > g.lo + g.buf THEN (g.phead + 1) - g.buf ELSE g.lo
 
 -----------------------------------------------------------------------------
 StepReset(e) ==
@@ -64,7 +68,7 @@ StepReset(e) ==
        THEN /\ g' = G0
             /\ alarms' = alarms \cup {[mon |-> "Conformance", scenario |-> e.scenario, ev |-> "Reset", line |-> l,
                                        shape |-> "setup", detail |-> e.error]}
-       ELSE /\ g' = [G0 EXCEPT !.head = e.head, !.lo = e.lo, !.q = e.q, !.backend = e.backend,
+       ELSE /\ g' = [G0 EXCEPT !.head = e.head, !.phead = e.head, !.lo = e.lo, !.q = e.q, !.backend = e.backend,
                                !.gated = e.gated, !.buf = e.buf,
                                !.dig = [r \in {p[1] : p \in Range(e.init)} |->
                                           (CHOOSE p \in Range(e.init) : p[1] = r)[2]]]
@@ -92,7 +96,7 @@ StepSend(e) ==
   /\ e.ev = "Send" /\ Known(e)
   /\ LET x == ss[e.s]
          live == x.pc \notin {"open", "scan"}
-         v == SS!SendVerdict(x.sent, x.from, e.r)
+         v == SS!SendVerdictL(x.sent, x.from, e.r, LoNow)
          last == IF Len(x.sent) > 0 THEN SS!Last(x.sent) ELSE 0
          scanpart == {x.sent[i] : i \in 1..x.nscan}
          shape ==
@@ -108,6 +112,8 @@ StepSend(e) ==
                   IF live /\ e.r \in x.dispAfter /\ last \in x.dispAfter
                      /\ (e.r \notin DOMAIN g.ppos \/ g.ppos[e.r] > Get(g.dpos, last, 0))
                     THEN "concurrent-puts-dispatch-reordered" ELSE "other"
+             [] v = "FromStart" ->
+                  IF g.backend = "mem" /\ x.seekmiss THEN "memdb-seek-evicted-round" ELSE "other"
              [] OTHER -> "other"
          A1 == IF e.res = "ok" /\ v # "ok"
                  THEN {Alarm(v, e, shape, IF live THEN "live" ELSE "scan")} ELSE {}
@@ -130,7 +136,9 @@ StepSend(e) ==
 
 StepAfterScan(e) ==
   /\ e.ev = "AfterScan" /\ Known(e)
-  /\ ss' = [ss EXCEPT ![e.s].pc = "after"]
+  \* memdb Seek is an exact match: a requested round the ring has already forgotten gives an empty scan
+  /\ ss' = [ss EXCEPT ![e.s].pc = "after",
+                      ![e.s].seekmiss = (g.backend = "mem" /\ ss[e.s].from # 0 /\ ss[e.s].nscan = 0 /\ ss[e.s].from < LoNow)]
   /\ UNCHANGED <<g, alarms, scen>>
 
 \* effect of AddCallback(id) by stream n: it owns the id from now on, the previous owner is replaced
@@ -238,18 +246,19 @@ StepQuiesce(e) ==
          check == {s \in DOMAIN ss : /\ ss[s].pc = "live" /\ ss[s].health = "ok" /\ ~ss[s].repl
                                      /\ s \notin parkedSend /\ ~g.wedged /\ ~e.diverged /\ ~writerParked}
          bad(s) == \/ ss[s].orphan
-                   \/ ~ss[s].orphan /\ ( \/ ~SS!Complete(ss[s].sent, ss[s].from, g.head)
+                   \/ ~ss[s].orphan /\ ( \/ ~SS!CompleteL(ss[s].sent, ss[s].from, g.head, LoNow)
                                          \/ ~(ss[s].dispAfter \subseteq Range(ss[s].sent)) )
          missing(s) == IF Len(ss[s].sent) = 0 /\ ss[s].from = 0 THEN ss[s].dispAfter
-                       ELSE SS!Missing(ss[s].sent, ss[s].from, g.head)
+                       ELSE {m \in SS!Missing(ss[s].sent, ss[s].from, g.head) : m >= LoNow}
          overtaken(s, m) == /\ m \in DOMAIN g.dpos /\ m \notin ss[s].dispAfter
                             /\ \E r \in Range(ss[s].sent) : r < m /\ r \in ss[s].dispAfter /\ g.dpos[m] < Get(g.dpos, r, 0)
          shape(s) == IF ss[s].orphan THEN "callback-removed-by-predecessor"
-                     ELSE IF g.backend = "mem" /\ ss[s].evict THEN "memdb-eviction-shifts-cursor"
+                     ELSE IF g.backend = "mem" /\ ss[s].seekmiss THEN "memdb-seek-evicted-round"
                      ELSE IF missing(s) # {} /\ missing(s) \subseteq ss[s].skipped THEN "put-between-scan-and-register"
                      \* a later round was dispatched before this stream registered, an earlier one afterwards
                      ELSE IF missing(s) # {} /\ \A m \in missing(s) : m \in ss[s].skipped \/ overtaken(s, m)
                        THEN "concurrent-puts-dispatch-reordered"
+                     ELSE IF g.backend = "mem" /\ ss[s].evict THEN "memdb-eviction-shifts-cursor"
                      ELSE "other"
          A1 == {Alarm("LiveComplete", [ev |-> "Quiesce"], shape(s), "stream is open and healthy but has not received every stored round")
                   : s \in {t \in check : bad(t)}}
@@ -274,7 +283,7 @@ StepQuiesce(e) ==
 
 StepPutCall(e) ==
   /\ e.ev = "PutCall"
-  /\ g' = [g EXCEPT !.pend = Upd(g.pend, e.r, e.dg)]
+  /\ g' = [g EXCEPT !.pend = Upd(g.pend, e.r, e.dg), !.phead = IF e.r > @ THEN e.r ELSE @]
   /\ UNCHANGED <<ss, alarms, scen>>
 
 \* events that carry no information for this module
